@@ -49,6 +49,12 @@ MUT = [
     (r"\.min\(", ".max("), (r"\.max\(", ".min("), (r"\bchecked_add\b", "checked_sub"), (r"\bchecked_sub\b", "checked_add"),
     (r"\b(\d+)u64\b", lambda m: f"{int(m.group(1)) + 1}u64"), (r"\b([1-9]\d?)\b(?![.\w])", lambda m: str(int(m.group(1)) + 1)),
     (r"\?;$", ".ok();"),
+    (r"\bif !", "if "), (r"\.is_some\(\)", ".is_none()"), (r"\.is_none\(\)", ".is_some()"), (r"\.is_empty\(\)", ".is_empty() == false"),
+    (r"\b0x([0-9a-fA-F]{2,8})\b", lambda m: "0x%x" % (int(m.group(1), 16) ^ 1)),
+    (r"\bas u16\b", "as u8 as u16"), (r"\bas u32\b", "as u16 as u32"), (r"\bu64::from\(", "u64::from(1 + "),
+    (r"\bsaturating_sub\b", "wrapping_sub"),
+    # statement deletion: a stand-alone call statement (no binding, no control flow)
+    (r"^\s*(self|writer|reader|w|r|file|data|hasher|buf|result|zip)[\w.]*\([^;]*\)\??;\s*$", "DELETE"),
 ]
 sites = []
 for f in FILES:
@@ -71,6 +77,10 @@ for f in FILES:
 rnd = random.Random(int(opt["--seed"]))
 rnd.shuffle(sites)
 ORDER = ["C12", "C17", "C18", "C19", "C06", "C04", "C13", "C14", "C15", "C02", "C03", "C01", "C10", "C16", "C09", "C08", "C20", "C07", "C11", "C05"]
+FIRST = {"write.rs": ["C02", "C12", "C01", "C17", "C13", "C14", "C08", "C11", "C09", "C15"], "read.rs": ["C03", "C05", "C04", "C06", "C19", "C10", "C16", "C15", "C07", "C20", "C09", "C11"],
+         "read/stream.rs": ["C10", "C07", "C05", "C19"], "spec.rs": ["C03", "C02", "C08", "C05", "C13"], "types.rs": ["C18", "C06", "C03", "C02", "C08", "C19"],
+         "crc32.rs": ["C04", "C09", "C16"], "zipcrypto.rs": ["C15", "C09", "C04"], "aes.rs": ["C16", "C09", "C05"], "aes_ctr.rs": ["C16", "C09"], "compression.rs": ["C03", "C01", "C12"], "cp437.rs": ["C19", "C03"]}
+def order_for(f): return FIRST.get(f, []) + [c for c in ORDER if c not in FIRST.get(f, [])]
 done = 0
 print(f"{len(sites)} candidate sites; sampling {opt['--count']}", flush=True)
 with open(OUT, "a") as out:
@@ -84,7 +94,7 @@ with open(OUT, "a") as out:
         m = re.compile(rx).match(lines[i], pos) or re.compile(rx).search(lines[i], pos)
         if not m:
             continue
-        new = lines[i][:m.start()] + (rep(m) if callable(rep) else rep) + lines[i][m.end():]
+        new = "" if rep == "DELETE" else lines[i][:m.start()] + (rep(m) if callable(rep) else rep) + lines[i][m.end():]
         if new == lines[i]:
             continue
         old_line = lines[i]
@@ -104,7 +114,7 @@ with open(OUT, "a") as out:
             continue
         done += 1
         rec["result"] = "SURVIVED"
-        for c in ORDER:
+        for c in order_for(f):
             r = sh(f"cd {VER} && ./check {c} quick", timeout=2400)
             if r.returncode == 1 and "VIOLATION" in r.stdout:
                 msg = [l.strip() for l in r.stdout.splitlines() if "message=" in l][:1]
